@@ -42,13 +42,13 @@ needs_race() {
 case "${1:-}" in
   build) build && build_race; exit $? ;;
   replay)
-    if needs_race "$2"; then build_race || exit 2; export GORACE="halt_on_error=0 exitcode=0"; exec $BUILD/sim-race replay "$2"; fi
+    if needs_race "$2"; then build_race || exit 2; export GORACE="halt_on_error=0 exitcode=0 history_size=7"; exec $BUILD/sim-race replay "$2"; fi
     build || exit 2; exec $BUILD/sim replay "$2" ;;
   "") echo "usage: run.sh <property> <quick|thorough>"; exit 2 ;;
 esac
 if needs_race "$1"; then
   build_race || exit 2
-  export GORACE="halt_on_error=0 exitcode=0"
+  export GORACE="halt_on_error=0 exitcode=0 history_size=7"
   exec $BUILD/sim-race check "$1" "${2:-quick}"
 fi
 build || exit 2
